@@ -322,6 +322,26 @@ func cleanerLife(args []string) {
 					go func() { defer wg.Done(); mjml.Render(doc, mjml.WithCache()) }()
 				}
 				wg.Wait()
+			case "start-after-mixed-concurrent":
+				// stops overlapping starts (either outcome of the overlap is legal), then one sequential use of the cache,
+				// after which exactly one cleaner must run; repeated, stopping at the first round where it does not
+				rounds := int(j.num("rounds"))
+				if rounds == 0 {
+					rounds = 1000
+				}
+				for r := 0; r < rounds; r++ {
+					var wg sync.WaitGroup
+					for g := 0; g < 4; g++ {
+						wg.Add(2)
+						go func() { defer wg.Done(); mjml.Render(doc, mjml.WithCache()) }()
+						go func() { defer wg.Done(); mjml.StopASTCacheCleanup() }()
+					}
+					wg.Wait()
+					mjml.Render(doc, mjml.WithCache())
+					if !mjml.VerifCleanupRunning() {
+						break
+					}
+				}
 			case "stop-concurrent":
 				var wg sync.WaitGroup
 				for g := 0; g < 8; g++ {
